@@ -6,7 +6,8 @@ Input : {"ids": [...], "mode": "nrt", "cases": [case, ...]}
                 "conds": [cname, ...], "flows": [fname, ...],
                 "hist": [{"op": name, "t": target, "v": int}, ...]}
         instr = {"op": .., "t": target, "v": int, "c": 0|1 (catch the exception of an API call)}
-          body ops : yn v (yield v/8) | yv v (yield 's<v>') | ret | raise | yar v | alw v
+          body ops : yn v (yield v/8) | yv v (yield 's<v>') | ret | yar v | alw v
+                     raise v (0 Boom(Exception) 1 BaseBoom(BaseException) 2 KeyboardInterrupt 3 SystemExit 4 GeneratorExit)
                      next|stop|pause|resume|reset|play t | wait t | signal|unhang t | settest t v
                      fget t | fset t v | embed t (yield from t.__embed__())
                      try .. except .. endx (except BaseException) | try .. finally .. endf  (nestable)
@@ -37,6 +38,11 @@ def run_case(case, mode):
 
     class Boom(Exception):
         pass
+
+    class BaseBoom(BaseException):      # a user exception that is not an Exception
+        pass
+
+    exc_classes = {0: Boom, 1: BaseBoom, 2: KeyboardInterrupt, 3: SystemExit, 4: GeneratorExit}
 
     def tname(tt):
         if tt is None:
@@ -124,7 +130,7 @@ def run_case(case, mode):
         if op == 'ret':
             return True
         if op == 'raise':
-            raise Boom('boom')
+            raise exc_classes.get(ins['v'], Boom)('boom')
         if op == 'yar':
             raise stm.YieldAndReset(ins['v'] / 8.0)
         if op == 'alw':
